@@ -115,7 +115,10 @@ void check_file(Src &s, Ctx &c) {
         else { off = s.range(0, (long)flen + 10); nb = (long)flen - off + s.range(1, 100); if (nb < 0) nb = 1; }   // out of range
         alignas(16) uint8_t d[16]; memset(d, 0xEE, 16);
         errno = 0;
+        int fds0 = count_open_fds();
         bool ok = qhashmd5_file(g_tmp.c_str(), (off_t)off, (ssize_t)nb, d);
+        int fds1 = count_open_fds();
+        if (fds0 >= 0 && fds1 > fds0) c.fail(FUNC, "hash:md5-file-fd-leak", "qhashmd5_file(offset=%ld,nbytes=%ld) on a %zu-byte file returned %d and left %d file descriptor(s) open: after enough such calls every file hash fails", off, nb, flen, (int)ok, fds1 - fds0);
         bool inrange = (size_t)(off + nb) <= flen && (size_t)off <= flen;
         c.op("  md5_file(offset=%ld, nbytes=%ld) -> %d", off, nb, (int)ok);
         if (ok != inrange) c.fail(FUNC, "hash:md5-file-range", "qhashmd5_file(offset=%ld,nbytes=%ld) on a %zu-byte file returned %d, expected %d", off, nb, flen, (int)ok, (int)inrange);
